@@ -8,10 +8,10 @@ from rules import common
 
 CLAIMED = True
 TECHNIQUE = "static analysis over type-checked MIR: guarded-table extraction of the formatter-name chain (name -> chunk variant, alias groups) cross-checked with the module documentation, per-variant accessor table of FormattedChunk::encode with placeholder constants, constant-folded profile gating in dev and release builds, escape table of the parser, forward-iteration of every chunk loop"
-LEVEL_TEXT = """Static decision of the table clauses only (the recursive parser as a whole — nesting, arguments, adjacency — and date formatting are NOT claimed): (T1) the formatter-name table extracted from From<Piece> for Chunk: {d,date}->Time {f,file}->File {h,highlight}->Highlight {D,debug}->Debug {R,release}->Release {l,level}->Level {L,line}->Line {m,message}->Message {M,module}->Module {P,pid}->ProcessId {i,tid}->SystemThreadId {n}->Newline {t,target}->Target {T,thread}->Thread {I,thread_id}->ThreadId {X,mdc}->Mdc {""}->Align, equal to the names listed in the module documentation; (T2) FormattedChunk::encode's accessor table: Level->record.level(), Message->record.args(), Module/File/Line->record.module_path()/file()/line() with "???" exactly on their None edges, Target->record.target(), Thread->thread::current().name() (unnamed), ThreadId->thread_id::get, ProcessId->process::id, SystemThreadId->the TID thread-local, Newline->NEWLINE, Mdc->log_mdc::get(key) with the default, Time->{Utc,Local}::now().format(fmt) per zone; (T3) the children loop of Debug is reachable and that of Release is not in a dev build after constant folding, and the reverse in a release build; (T4) the Highlight arm only sets styles and encodes its children; (T5) in the parser, doubled and backslash-escaped {, }, (, ) and \\\\ produce a text piece of exactly that character; (T7) the date format string is either the default "%+" or accumulated from every piece of the first argument, in order, with no early exit; (T8) in the parser no byte quantity (str::len, find offsets) steps the character cursor and no character count slices the pattern, so literal text containing multi-byte characters is delimited like ASCII text; (T6) every chunk loop iterates forward, encoding each child once, and PatternEncoder::new collects the parser's pieces in order. (T15) the width specification in front of a formatter is read as C10.A6 requires (any character may be the fill, decided only by the character after it). (T16) every argument group written is counted (C11.P7); (T17) a written width of 0 is a width (C10.A10). (T18) widths are stored as parsed (C10.A12). (T19) no branch of a Parser method compares a scalar field of the parser (a depth, a piece count) with an integer constant: the verdict on a piece depends on the characters read, not on how much was read before - no nesting or length limit."""
+LEVEL_TEXT = """Static decision of the table clauses only (the recursive parser as a whole — nesting, arguments, adjacency — and date formatting are NOT claimed): (T1) the formatter-name table extracted from From<Piece> for Chunk: {d,date}->Time {f,file}->File {h,highlight}->Highlight {D,debug}->Debug {R,release}->Release {l,level}->Level {L,line}->Line {m,message}->Message {M,module}->Module {P,pid}->ProcessId {i,tid}->SystemThreadId {n}->Newline {t,target}->Target {T,thread}->Thread {I,thread_id}->ThreadId {X,mdc}->Mdc {""}->Align, equal to the names listed in the module documentation; (T2) FormattedChunk::encode's accessor table: Level->record.level(), Message->record.args(), Module/File/Line->record.module_path()/file()/line() with "???" exactly on their None edges, Target->record.target(), Thread->thread::current().name() (unnamed), ThreadId->thread_id::get, ProcessId->process::id, SystemThreadId->the TID thread-local, Newline->NEWLINE, Mdc->log_mdc::get(key) with the default, Time->{Utc,Local}::now().format(fmt) per zone; (T3) the children loop of Debug is reachable and that of Release is not in a dev build after constant folding, and the reverse in a release build; (T4) the Highlight arm only sets styles and encodes its children; (T5) in the parser, doubled and backslash-escaped {, }, (, ) and \\\\ produce a text piece of exactly that character; (T7) the date format string is either the default "%+" or accumulated from every piece of the first argument, in order, with no early exit; (T8) in the parser no byte quantity (str::len, find offsets) steps the character cursor and no character count slices the pattern, so literal text containing multi-byte characters is delimited like ASCII text; (T6) every chunk loop iterates forward, encoding each child once, and PatternEncoder::new collects the parser's pieces in order. (T15) the width specification in front of a formatter is read as C10.A6 requires (any character may be the fill, decided only by the character after it). (T16) every argument group written is counted (C11.P7); (T17) a written width of 0 is a width (C10.A10). (T18) widths are stored as parsed (C10.A12). (T19) no branch of a Parser method compares a scalar field of the parser (a depth, a piece count) with an integer constant: the verdict on a piece depends on the characters read, not on how much was read before - no nesting or length limit. (T20) MaxWidthWriter swallows bytes only when the cut index is zero (C10.A5 re-evaluated). (T21) every return of PatternEncoder::encode lies behind the first step of its chunk iterator."""
 LEVEL_NOTE = "Trusted: rustc MIR/callee resolution; log::Record accessors; chrono formatting; the parser's recursive structure beyond the escape table is not analysed for semantic equivalence with the documented grammar."
 EXPLANATION = """Decided: T1 name table (+doc cross-check), T2 accessor table and placeholders, T3 profile gating (dev + release configs), T4 highlight adds only style, T5 escape table, T6 forward order. Undecided: the recursive parser as a whole (nesting, argument handling, adjacency of pieces), date formatting results."""
-DECIDED = ["T1", "T2", "T3", "T4", "T5", "T6", "T7", "T8", "T9 width writers charge what was consumed (C10.A7)", "T10 right-aligned text is buffered whole and replayed whole", "T11 a configured pattern is the pattern used; the default only when none is given", "T12 each formatter name yields its own chunk under the piece's own parameters", "T13 a group's children are its argument's pieces, one chunk each", "T19 no branch of the parser compares a count of its own progress with a constant (no nesting or piece limit)"]
+DECIDED = ["T1", "T2", "T3", "T4", "T5", "T6", "T7", "T8", "T9 width writers charge what was consumed (C10.A7)", "T10 right-aligned text is buffered whole and replayed whole", "T11 a configured pattern is the pattern used; the default only when none is given", "T12 each formatter name yields its own chunk under the piece's own parameters", "T13 a group's children are its argument's pieces, one chunk each", "T21 every return of PatternEncoder::encode lies behind its chunk loop", "T19 no branch of the parser compares a count of its own progress with a constant (no nesting or piece limit)"]
 UNDECIDED = ["recursive parser semantics (nesting/arguments/adjacency)", "date formatting"]
 TRUSTED = ["rustc nightly MIR + Instance::try_resolve", "log::Record", "chrono formatting"]
 
@@ -299,6 +299,19 @@ def rule_no_fixed_limit(ctx, p, cfg, rid="T19"):
         r.ok("fields", detail="%s has %d scalar field(s) %s; %d branches in %d methods examined" % (adt, len(scalars), sorted(scalars), n, len(fns)))
 
 
+def rule_every_chunk_on_every_record(ctx, p, cfg, rid="T21"):
+    """"nothing dropped": PatternEncoder::encode has no way out that does not go through its loop over the chunks - whether
+    a record is rendered at all is not decided by looking at the record"""
+    with ctx.rule(rid, "every record goes through the chunk loop", cfg) as r:
+        f = p.fn_loops(PENCODE)
+        nx = [c.block for c in f.calls(NEXT)]
+        r.require(len(nx) >= 1, "chunk-loop", fn=f, detail="iterator steps in PatternEncoder::encode: %d" % len(nx))
+        early = sorted(q.skipping_paths(f, 0, set(nx), set(f.return_blocks())))
+        r.require(not early, "no-return-before-the-chunks", fn=f,
+                  detail="every return of PatternEncoder::encode lies behind the chunk iterator's first step",
+                  fail_detail="PatternEncoder::encode can return (block %s) without stepping through its chunks: for some records nothing of the pattern is written" % early[:3])
+
+
 def rule_group_children(ctx, p, cfg, rid="T13"):
     """A group's children are the pieces of its argument, one chunk each, in order: `{h(..)}`, `{D(..)}`, `{R(..)}` and `{(..)}`
     build their list by converting every piece with From<Piece> and collecting - no piece merged into its neighbours,
@@ -359,6 +372,7 @@ def run_cfg(ctx, p, cfg, release):
     rule_arm_results(ctx, p, cfg, "T12")
     rule_group_children(ctx, p, cfg, "T13")
     rule_no_fixed_limit(ctx, p, cfg, "T19")
+    rule_every_chunk_on_every_record(ctx, p, cfg, "T21")
     c10.rule_sink_past_cut(ctx, p, cfg, "T20")   # "nothing dropped": a truncated value loses only what lies past the cut - the writer swallows bytes only when the cut index is zero (C10.A5 re-evaluated)
     from rules import c11
     c11.rule_args_kept(ctx, p, cfg, "T16")   # the meaning of `{name(a)(b)}` starts with the list of its groups being the groups written (C11.P7 re-evaluated)
